@@ -374,6 +374,20 @@ func (c *ctx) walkStmt(fi int, sp []int, s *stmt, sc *scope) {
 		if s.Op == "quo" || s.Op == "rem" || isIntB(under(dst)) {
 			c.emit("opassign-const-zero-divisor", dst.class(), c.withStmt(fi, sp, func(m *stmt) { m.Op = "rem"; m.E = &expr{K: "lit", Lit: "int", V: 0} }))
 		}
+		if isIntB(under(dst)) {
+			c.emit("opassign-const-zero-divisor", "quo:"+dst.class(), c.withStmt(fi, sp, func(m *stmt) { m.Op = "quo"; m.E = &expr{K: "lit", Lit: "int", V: 0} }))
+			c.emit("opassign-const-zero-divisor", "quo-float-zero:"+dst.class(), c.withStmt(fi, sp, func(m *stmt) { m.Op = "quo"; m.E = &expr{K: "lit", Lit: "float", V: 0} }))
+			if dst.S.Named == 0 {
+				dt := dst
+				c.emit("opassign-typed-const-zero-divisor", dst.class(), c.withStmt(fi, sp, func(m *stmt) {
+					m.Op = "rem"
+					m.E = &expr{K: "conv", T: &dt, A: &expr{K: "lit", Lit: "int", V: 0}}
+				}))
+			}
+		} else if isNumB(under(dst)) {
+			// valid Go: a floating-point or complex variable divided by the constant zero (F12-11)
+			c.emit("opassign-const-zero-divisor", "quo-non-integer:"+dst.class(), c.withStmt(fi, sp, func(m *stmt) { m.Op = "quo"; m.E = &expr{K: "lit", Lit: "int", V: 0} }))
+		}
 	case "incdec":
 		for _, vi := range sc.onePerClass(sc.varsWhere(func(t ty) bool { return !isNumB(under(t)) })) {
 			vi := vi
@@ -707,6 +721,9 @@ func (c *ctx) walkExpr(fi int, sp, ep []int, e *expr, sc *scope) {
 			r = e.clone()
 			r.B = &expr{K: "lit", Lit: "float", V: 1, Frac: true}
 			repl("shift-count-literal", "const-float-frac", r)
+			r = e.clone()
+			r.B = typedConst("int", -1)
+			repl("shift-count-typed-negative", "typed-int-const-int-neg", r)
 		}
 	case "call":
 		for k, a := range e.Args {
@@ -813,6 +830,12 @@ func (c *ctx) walkExpr(fi int, sp, ep []int, e *expr, sc *scope) {
 			r := e.clone()
 			r.B = &expr{K: "lit", Lit: "int", V: -1}
 			repl("index-constant-negative", at.K, r)
+			r = e.clone()
+			r.B = typedConst("int", -1)
+			repl("index-typed-constant-negative", at.K, r)
+			r = e.clone()
+			r.B = &expr{K: "lit", Lit: "float", V: -2}
+			repl("index-constant-negative", at.K+":float", r)
 			if at.K == "array" {
 				r := e.clone()
 				r.B = &expr{K: "lit", Lit: "int", V: int64(at.N) + 2}
